@@ -32,12 +32,13 @@ def EV_DESTROY : Nat := 4
 
 /-- Which of the repairs are present in the code being modelled. -/
 structure Cfg where
-  /-- the two walkers and the destroy loop test `bind->id != BINDING_ID_TOMBSTONE` -/
+  /-- the two walkers test `bind->id != BINDING_ID_TOMBSTONE` -/
   skipTomb : Bool
   /-- `run_event_whilefalse` honours `TICKIT_BIND_ONESHOT` -/
   wfOneshot : Bool
-  /-- `unbind_event_id` tombstones before notifying, holds the iteration guard and sweeps afterwards -/
-  guardedUnbind : Bool
+  /-- `unbind_event_id` removes (or tombstones) the binding first, calls the unbind notification last
+      with nothing of the list held across the call, and stops at the first match -/
+  notifyLast : Bool
   deriving DecidableEq, Repr
 
 def Cfg.original : Cfg := ⟨false, false, false⟩
@@ -145,6 +146,14 @@ def throughKey : List Node → Nat → List Node
   | [], _ => []
   | b :: rest, k => if b.key = k then [b] else b :: throughKey rest k
 
+/-- the first node whose `id` is `id` -/
+def findId : List Node → Int → Option Node
+  | [], _ => none
+  | b :: rest, id => if b.id = id then some b else findId rest id
+
+/-- unlink the node with key `k` -/
+def eraseKey (l : List Node) (k : Nat) : List Node := l.filter fun b => b.key ≠ k
+
 /-- `max_id` of `bind_event`. -/
 def maxId : List Node → Int
   | [] => 0
@@ -193,8 +202,6 @@ inductive Task
   | unbindId (id : Int)
   /-- its loop in the unchanged code, `bindp` at `loc` -/
   | unbindLoopOrig (id : Int) (loc : Loc)
-  /-- its loop in the repaired code, `bind` at `cur` -/
-  | unbindLoopFixed (id : Int) (cur : Option Nat)
   /-- `(*fn)(owner, flags, info, data)` for the binding `key` -/
   | call (key : Nat) (fn : Option Nat) (flags : Nat) (occ : Nat)
   /-- the rest of the running handler's action list, next index `i` -/
@@ -280,15 +287,22 @@ def exec : Nat → Task → St → Res (St × Int)
         | .ok (st2, _) => exec fuel (.acts self (i + 1) rest) (st2.push Ev.actEnd)
         | e => e
     | .unbindId id =>
-      if cfg.guardedUnbind then
-        let was := st.isIter
-        match exec fuel (.unbindLoopFixed id (firstOf st.list)) { st with isIter := true } with
-        | .ok (st2, _) =>
-          let st3 := { st2 with isIter := was }
-          if !was && st3.needsDelete then
-            .ok ({ st3 with list := sweep st3.list, needsDelete := false }, 0)
-          else .ok (st3, 0)
-        | e => e
+      if cfg.notifyLast then
+        match findId st.list id with
+        | none => .ok (st, 0)
+        | some b =>
+          -- TickitEventFn *fn = (bind->flags & TICKIT_EV_UNBIND) ? bind->fn : NULL;
+          let fn := if b.flags.unbind then b.fn else none
+          -- unlink and free now, or tombstone when a walker is running
+          let l1 := if !st.isIter then eraseKey st.list b.key
+                    else modifyKey st.list b.key (fun b => { b with id := TOMBSTONE, ev := -1, fn := none })
+          let st1 := { st with list := l1, needsDelete := st.isIter || st.needsDelete, log := Ev.unbindReq b.key :: st.log }
+          -- if(fn) (*fn)(owner, TICKIT_EV_UNBIND, NULL, data); return;
+          match fn with
+          | none => .ok (st1, 0)
+          | some h => match exec fuel (.call b.key (some h) EV_UNBIND 0) st1 with
+            | .ok (st2, _) => .ok (st2, 0)
+            | e => e
       else exec fuel (.unbindLoopOrig id .head) st
     | .unbindLoopOrig id loc =>
       match readLoc st.list loc with
@@ -320,34 +334,11 @@ def exec : Nat → Task → St → Res (St × Int)
                   exec fuel (.unbindLoopOrig id (.next k))
                     { st1 with list := modifyKey l2 k (fun b => { b with id := TOMBSTONE }), needsDelete := true }
             | e => e
-    | .unbindLoopFixed id cur =>
-      match cur with
-      | none => .ok (st, 0)
-      | some k =>
-        match findKey st.list k with
-        | none => .ub "unbind: binding was freed under the iteration"
-        | some b =>
-          if b.id ≠ id then
-            match nextOf st.list k with
-            | none => .ub "unbind: unreachable"
-            | some nx => exec fuel (.unbindLoopFixed id nx) st
-          else
-            -- tombstone first, then notify
-            let st0 := { st with
-              list := modifyKey st.list k (fun b => { b with id := TOMBSTONE, ev := -1, fn := none }),
-              needsDelete := true, log := Ev.unbindReq k :: st.log }
-            let r : Res (St × Int) := if b.flags.unbind then exec fuel (.call k b.fn EV_UNBIND 0) st0 else .ok (st0, 0)
-            match r with
-            | .ok (st1, _) =>
-              match nextOf st1.list k with
-              | none => .ub "unbind: binding was freed during its own unbind notification"
-              | some nx => exec fuel (.unbindLoopFixed id nx) st1
-            | e => e
     | .destroyLoop rev =>
       match rev with
       | [] => .ok ({ st with list := [] }, 0)
       | b :: rest =>
-        if (cfg.skipTomb = true → b.id ≠ TOMBSTONE) ∧ (b.ev = 0 ∨ b.flags.unbind = true ∨ b.flags.destroy = true) then
+        if b.ev = 0 ∨ b.flags.unbind = true ∨ b.flags.destroy = true then
           match exec fuel (.call b.key b.fn (EV_UNBIND + EV_DESTROY) 0) st with
           | .ok (st1, _) => exec fuel (.destroyLoop rest) st1
           | e => e
